@@ -296,6 +296,26 @@ def f8(src, st):
     st['F8'] = 'ok'
     return sorted(set(panics)), sorted(set(narrows))
 
+# ---------------------------------------------------------------- F11 decision budget
+BUDGET_OPS = [('if', r'\bif\b'), ('match', r'\bmatch\b'), ('while', r'\bwhile\b'), ('==', r'=='), ('!=', r'!='), ('<=', r'<='), ('>=', r'(?<![=])>='), ('&&', r'&&'), ('||', r'\|\|')]
+def f11(src, st):
+    """per module: how many branching constructs / comparisons and which integer literals (how often) the non-test source holds.
+    A needle (`if n == 4096 {..}`) that no stream will ever hit still adds a branch, a comparison or a literal."""
+    out = []
+    for mod in MODS:
+        s = re.sub(r'"(?:[^"\\\\]|\\\\.)*"', '""', src[mod])
+        s = re.sub(r"'(?:[^'\\\\]|\\\\.)'", "' '", s)
+        for name, rx in BUDGET_OPS:
+            n = len(re.findall(rx, s))
+            if n: out.append((mod, name, n))
+        if mod != 'iana':                       # the registry tables are facts of their own (F1), row by row
+            lits = {}
+            for m in re.finditer(r'(?<![\w.])(\d+)(?:_?[iu](?:8|16|32|64|128|size))?(?![\w.])', s):
+                lits[m.group(1)] = lits.get(m.group(1), 0) + 1
+            for k in sorted(lits, key=int): out.append((mod, 'lit:' + k, lits[k]))
+    st['F11'] = 'ok'
+    return out
+
 # ---------------------------------------------------------------- F9 / F10
 def f9(src, st):
     """impls of (Tagged)CborSerializable: body must be empty / TAG only; default method bodies normalised."""
@@ -432,6 +452,9 @@ def emit(facts):
     L.append('def builderUses : List (String × String × String) :=\n  [%s]' % ',\n   '.join('(%s, %s, %s)' % tuple(lstr(x) for x in c) for c in uses))
     L.append('def builderMacros : List (String × String) :=\n  [%s]' % ',\n   '.join('(%s, %s)' % (lstr(a), lstr(b)) for a, b in macros))
     L.append('def builderMethods : List (String × String × String) :=\n  [%s]' % ',\n   '.join('(%s, %s, %s)' % tuple(lstr(x) for x in c) for c in guards))
+    L.append('')
+    L.append('/-- F11: decision budget — (module, construct or integer literal, occurrences) in non-test code -/')
+    L.append('def decisionBudget : List (String × String × Nat) :=\n  [%s]' % ',\n   '.join('(%s, %s, %d)' % (lstr(a), lstr(b), c) for a, b, c in facts['F11']))
     L += ['', 'end Coset.Gen', '']
     write('Inventory.lean', '\n'.join(L))
 
@@ -481,7 +504,7 @@ def run():
     st = {}
     src = load()
     facts = {'F1': f1(src, st), 'F2': f2(src, st), 'F3': f3(src, st), 'F4': f4(src, st), 'F5': f5(src, st),
-             'F6': f6(src, st), 'F7': f7(src, st), 'F8': f8(src, st), 'F9': f9(src, st), 'F10': f10(src, st)}
+             'F6': f6(src, st), 'F7': f7(src, st), 'F8': f8(src, st), 'F9': f9(src, st), 'F10': f10(src, st), 'F11': f11(src, st)}
     DEGRADED.clear()
     emit(facts)
     for f, names in DEGRADED.items(): st['pinned-fallback:' + f] = names
